@@ -218,7 +218,11 @@ def run(ctx, coq_ok):
             mt = gen_mr(rng, NR, 1, a, b, malformed=rng.random() < 0.15)
             # segment construction asserts that a classed node begins and ends on code (validate_non_code_ends, outside the model):
             # keep non-code tokens outside the matched slice
-            for i in range(a, min(b, NR)):
+            def max_stop(t):
+                return max([t[1]] + [max_stop(x) for x in t[4]])
+            def min_start(t):
+                return min([t[0]] + [min_start(x) for x in t[4]])
+            for i in range(min(a, min_start(mt)), min(max(b, max_stop(mt)), NR)):
                 code[i] = True
             rtoks = tuple((RawSegment if code[i] else WhitespaceSegment)("abcdef"[i], PositionMarker(slice(i, i + 1), slice(i, i + 1), tfr)) for i in range(NR))
             rpos = {id(t): i for i, t in enumerate(rtoks)}
